@@ -330,4 +330,4 @@ mod test {
 
 #[cfg(kani)]
 #[path = "/verif/kani/internal.rs"]
-mod verif_kani;
+pub(crate) mod verif_kani;
